@@ -574,11 +574,63 @@ def rule_R16(text, log):
         text = text[:mm.start()] + new + text[mm.end():]
 
 
-RULES = {'R4b': rule_R4b, 'R4c': rule_R4c, 'R4d': rule_R4d, 'R9c': rule_R9c, 'R16': rule_R16, 'R5': rule_R5, 'R15': rule_R15, 'R6bp': rule_R6bp,
+def rule_R9b(text, log):
+    """X.iter().map(|p| E).collect()  ==>  { let mut out__ = Vec::new(); let mut ic__ = 0; while ic__ < X.len() { let p = &X[ic__]; out__.push(E); ic__ += 1; } out__ }
+    (a..b).map(|i| E).collect()      ==>  { let mut out__ = Vec::new(); let mut i = a; let endc__ = b; while i < endc__ { out__.push(E); i += 1; } out__ }"""
+    n = 0
+    while True:
+        m = mask(text)
+        hit = None
+        for c in find_closure_calls(text, 'map'):
+            mm = re.match(r'\s*\.\s*collect\s*\(\s*\)', m[c['close'] + 1:])
+            if not mm:
+                continue
+            recv = text[c['recv_start']:c['dot']].rstrip()
+            end = c['close'] + 1 + mm.end()
+            mi = re.fullmatch(r'(.*?)\s*\.\s*iter\s*\(\s*\)', recv, re.S)
+            if mi and re.fullmatch(IDENT, c['params']):
+                x = re.sub(r'\s+', '', mi.group(1))
+                sfx = '' if n == 0 else str(n)
+                after = '{ let mut out__%s = Vec::new(); let mut ic__%s: usize = 0; while ic__%s < %s.len() { let %s = &%s[ic__%s]; out__%s.push(%s); ic__%s += 1; } out__%s }' % (
+                    sfx, sfx, sfx, x, c['params'], x, sfx, sfx, c['body'], sfx, sfx)
+                hit = (c['recv_start'], end, after)
+                break
+            mr = re.fullmatch(r'\(\s*(.*?)\s*\.\.\s*(.*?)\s*\)', recv, re.S)
+            if mr and re.fullmatch(IDENT, c['params']):
+                sfx = '' if n == 0 else str(n)
+                after = '{ let mut out__%s = Vec::new(); let mut %s = %s; let endc__%s = %s; while %s < endc__%s { out__%s.push(%s); %s += 1; } out__%s }' % (
+                    sfx, c['params'], mr.group(1), sfx, mr.group(2), c['params'], sfx, sfx, c['body'], c['params'], sfx)
+                hit = (c['recv_start'], end, after)
+                break
+        if not hit:
+            return text
+        n += 1
+        a, b, after = hit
+        log.append(dict(rule='R9b', before=text[a:b][:200], after=after[:240]))
+        text = text[:a] + after + text[b:]
+
+
+def rule_R18(text, log):
+    """O.ok_or_else(|| E)  ==>  (match O { Some(x__) => Ok(x__), None => Err(E) })     (std definition)"""
+    def fn(t, m, c):
+        if c['params'] != '':
+            return None
+        recv = t[c['recv_start']:c['dot']].rstrip()
+        before = t[c['recv_start']:c['close'] + 1]
+        after = '(match %s { Some(x__) => Ok(x__), None => Err(%s) })' % (recv, c['body'])
+        log.append(dict(rule='R18', before=before[:200], after=after[:200]))
+        return t[:c['recv_start']] + after + t[c['close'] + 1:]
+    changed = True
+    while changed:
+        text, changed = _apply_once(text, 'ok_or_else', fn)
+    return text
+
+
+RULES = {'R9b': rule_R9b, 'R18': rule_R18, 'R4b': rule_R4b, 'R4c': rule_R4c, 'R4d': rule_R4d, 'R9c': rule_R9c, 'R16': rule_R16, 'R5': rule_R5, 'R15': rule_R15, 'R6bp': rule_R6bp,
     'R1': rule_R1, 'R2': rule_R2, 'R3': rule_R3, 'R3b': rule_R3b, 'R4': rule_R4,
     'R6': rule_R6, 'R6b': rule_R6b, 'R6c': rule_R6c,
 }
-DEFAULT_ORDER = ['R15', 'R6c', 'R1', 'R2', 'R3', 'R3b', 'R6', 'R6b', 'R6bp', 'R4']
+DEFAULT_ORDER = ['R15', 'R18', 'R6c', 'R9b', 'R1', 'R2', 'R3', 'R3b', 'R6', 'R6b', 'R6bp', 'R4']
 
 
 def apply_rules(text, log, rules=None):
